@@ -633,4 +633,181 @@ theorem lookup_miss_refines {s : State κ} {o : OState κ} (c : Nat) (cl : Calle
       · have : ¬ e.1 = k := fun h => hk h.symm
         simp [hk, this]
 
+theorem mem_of_getElem? {α : Type} {l : List α} {i : Nat} {a : α} (h : l[i]? = some a) : a ∈ l := by
+  obtain ⟨hlt, h2⟩ := List.getElem?_eq_some_iff.1 h
+  exact h2 ▸ List.getElem_mem hlt
+
+theorem hasKey_of_getElem? {es : List (κ × Nat)} {i : Nat} {e : κ × Nat} (h : es[i]? = some e) : hasKey es e.1 = true := by
+  unfold hasKey
+  exact List.any_eq_true.2 ⟨e, mem_of_getElem? h, by simp⟩
+
+theorem absFlight_ans {fls : List (Flight κ)} {f : Nat} {fl : Flight κ} (hf : fls[f]? = some fl) (ha : fl.ans ≠ none) :
+    absFlight fls f = some ⟨fl.key, fl.ans, fl.removed⟩ := by
+  unfold absFlight
+  simp [hf, ha]
+
+theorem srvPrepare_refines {s : State κ} {o : OState κ} (f : Nat) (fl : Flight κ) (r : PAns) (hI : Inv s) (hR : Rel s o)
+    (hf : s.flights[f]? = some fl) (ha : fl.ans = none) :
+    ∃ o', Obs.run o [.prep f fl.key r] = some o' ∧
+      Inv { s with flights := s.flights.set f { fl with ans := some r } } ∧
+      Rel { s with flights := s.flights.set f { fl with ans := some r } } o' := by
+  have hlt : f < s.flights.length := (List.getElem?_eq_some_iff.1 hf).1
+  have hmono : FlMono s.flights (s.flights.set f { fl with ans := some r }) :=
+    flmono_set _ f fl _ hf rfl (fun h => absurd ha h) (fun h => h)
+  -- enabledness in the specification
+  have hun : 0 < unann s.flights fl.key := by
+    unfold unann
+    exact List.countP_pos_iff.2 ⟨fl, mem_of_getElem? hf, by simp [ha]⟩
+  have hcr : 0 < o.credit fl.key := by rw [hR.credit]; omega
+  have hany : o.callers.any (fun cl => cl.pc.live && hasKey cl.entries fl.key) = true := by
+    obtain ⟨c0, cl0, h0, hp0⟩ := hI.waiter f fl hf ha
+    have hok := hI.callers c0 cl0 h0
+    have hp := hok.pcs
+    rw [hp0] at hp
+    obtain ⟨_, _, fl', e, g1, g2, g3, _⟩ := hp
+    rw [hf] at g1; injection g1 with g1; subst g1
+    obtain ⟨ocl, q1, q2, _, q4⟩ := hR.call c0 cl0 h0
+    rw [hp0] at q4
+    refine List.any_eq_true.2 ⟨ocl, mem_of_getElem? q1, ?_⟩
+    have : hasKey ocl.entries fl.key = true := by rw [q2, g3]; exact hasKey_of_getElem? g2
+    simp [this]
+    exact q4
+  have hInv : Inv { s with flights := s.flights.set f { fl with ans := some r } } := by
+    refine ⟨?_, ?_, ?_, ?_, ?_, ?_⟩
+    · intro k g hc
+      obtain ⟨x, h1, h2, h3⟩ := hI.cached k g hc
+      by_cases hfg : f = g
+      · subst hfg
+        rw [hf] at h1; injection h1 with h1; subst h1
+        exact ⟨{ fl with ans := some r }, by simp [hlt], h2, h3⟩
+      · exact ⟨x, by simp only []; rw [List.getElem?_set_ne hfg]; exact h1, h2, h3⟩
+    · intro g x hx hxr
+      simp only [] at hx
+      rcases getElem?_set_cases _ _ _ _ _ hx with ⟨h1, h2⟩ | ⟨_, h2⟩
+      · subst h1; subst h2
+        exact hI.uncached f fl hf hxr
+      · exact hI.uncached g x h2 hxr
+    · intro g x hx hd
+      simp only [] at hx
+      rcases getElem?_set_cases _ _ _ _ _ hx with ⟨_, h2⟩ | ⟨_, h2⟩
+      · subst h2; simp
+      · exact hI.doneAns g x h2 hd
+    · intro g x hx hd hax
+      simp only [] at hx
+      rcases getElem?_set_cases _ _ _ _ _ hx with ⟨h1, h2⟩ | ⟨_, h2⟩
+      · subst h1; subst h2
+        exact absurd ha (hI.doneAns f fl hf hd)
+      · exact hI.failRem g x h2 hd hax
+    · intro c cl hc
+      exact callerOK_mono hmono cl (hI.callers c cl hc)
+    · intro g x hx hax
+      simp only [] at hx
+      rcases getElem?_set_cases _ _ _ _ _ hx with ⟨_, h2⟩ | ⟨_, h2⟩
+      · subst h2; simp at hax
+      · exact hI.waiter g x h2 hax
+  have hcredit : ∀ k', (if k' = fl.key then o.credit fl.key - 1 else o.credit k') =
+      unann (s.flights.set f { fl with ans := some r }) k' + (if s.cache k' = none then 1 else 0) := by
+    intro k'
+    by_cases hk : k' = fl.key
+    · subst hk
+      have hdec : unann (s.flights.set f { fl with ans := some r }) fl.key + 1 = unann s.flights fl.key := by
+        unfold unann
+        exact countP_set_dec _ s.flights f fl _ hf (by simp [ha]) (by simp)
+      simp only [if_true]
+      rw [hR.credit fl.key]
+      omega
+    · simp only [hk, if_false]
+      rw [hR.credit k']
+      have : unann (s.flights.set f { fl with ans := some r }) k' = unann s.flights k' := by
+        unfold unann
+        have hne : ¬ fl.key = k' := fun h => hk h.symm
+        exact countP_set_same _ s.flights f fl _ hf (by simp [hne])
+      rw [this]
+  have hflight : ∀ g, (if g = f then some (⟨fl.key, some r, fl.removed⟩ : OFlight κ) else o.flights g) =
+      absFlight (s.flights.set f { fl with ans := some r }) g := by
+    intro g
+    unfold absFlight
+    by_cases hg : g = f
+    · subst hg; simp [hlt]
+    · have : f ≠ g := fun e => hg e.symm
+      simp only [hg, if_false, List.getElem?_set_ne this]
+      exact hR.flight g
+  have hcond : 0 < o.credit fl.key ∧ o.callers.any (fun cl => cl.pc.live && hasKey cl.entries fl.key) = true := ⟨hcr, hany⟩
+  by_cases hrem : fl.removed = false
+  · have ho : o.flights f = none := by rw [hR.flight f]; unfold absFlight; simp [hf, ha, hrem]
+    refine ⟨_, by simp only [Obs.run, Obs.step]; rw [if_pos hcond]; simp only [ho]; rfl, hInv, ?_⟩
+    refine ⟨hR.ncall, hR.call, ?_, ?_, hcredit⟩
+    · intro g; rw [← hflight g, hrem]
+    · intro g hg
+      simp only [] at hg ⊢
+      by_cases hgf : g = f
+      · simp [hgf]
+      · simp only [hgf, if_false] at hg
+        exact List.mem_cons_of_mem _ (hR.known g hg)
+  · have hrem : fl.removed = true := by cases h : fl.removed <;> simp_all
+    have ho : o.flights f = some ⟨fl.key, none, true⟩ := by rw [hR.flight f]; unfold absFlight; simp [hf, ha, hrem]
+    refine ⟨_, by simp only [Obs.run, Obs.step]; rw [if_pos hcond]; simp only [ho, and_self, if_true]; rfl, hInv, ?_⟩
+    refine ⟨hR.ncall, hR.call, ?_, ?_, hcredit⟩
+    · intro g; rw [← hflight g, hrem]
+    · intro g hg
+      simp only [] at hg ⊢
+      by_cases hgf : g = f
+      · subst hgf; exact hR.known g (by rw [ho]; simp)
+      · simp only [hgf, if_false] at hg
+        exact hR.known g hg
+
+/-! ### completion of a flight -/
+
+theorem removeKey_flmono (s : State κ) (k : κ) : FlMono s.flights (removeKey s k).1.flights := by
+  unfold removeKey
+  split
+  · exact flmono_refl _
+  · rename_i g _
+    split
+    · exact flmono_refl _
+    · rename_i fl hg
+      exact flmono_set _ g fl _ hg rfl (fun _ => rfl) (fun _ => rfl)
+
+theorem removeKey_marks {s : State κ} (f : Nat) (fl : Flight κ) (hI : Inv s) (hf : s.flights[f]? = some fl) :
+    ∃ fl1, (removeKey s fl.key).1.flights[f]? = some fl1 ∧ fl1.ans = fl.ans ∧ fl1.removed = true := by
+  cases hr : fl.removed with
+  | true =>
+    obtain ⟨fl1, h1, _, _, h4⟩ := removeKey_flmono s fl.key f fl hf
+    -- the answer is not touched by removeKey
+    unfold removeKey at h1 ⊢
+    cases hck : s.cache fl.key with
+    | none => simp only [hck] at h1 ⊢; exact ⟨fl, hf, rfl, hr⟩
+    | some g =>
+      simp only [hck] at h1 ⊢
+      cases hg : s.flights[g]? with
+      | none => simp only [hg] at h1 ⊢; exact ⟨fl, hf, rfl, hr⟩
+      | some x =>
+        simp only [hg] at h1 ⊢
+        by_cases hgf : g = f
+        · subst hgf
+          rw [hf] at hg; injection hg with hg; subst hg
+          have hlt : g < s.flights.length := (List.getElem?_eq_some_iff.1 hf).1
+          exact ⟨{ fl with removed := true }, by simp [hlt], rfl, rfl⟩
+        · exact ⟨fl, by rw [List.getElem?_set_ne hgf]; exact hf, rfl, hr⟩
+  | false =>
+    have hc := hI.uncached f fl hf hr
+    have hlt : f < s.flights.length := (List.getElem?_eq_some_iff.1 hf).1
+    unfold removeKey
+    simp only [hc, hf]
+    exact ⟨{ fl with removed := true }, by simp [hlt], rfl, rfl⟩
+
+theorem complete_ok_refines {s : State κ} {o : OState κ} (f : Nat) (fl : Flight κ) (p : Id × Nat) (hI : Inv s) (hR : Rel s o)
+    (hf : s.flights[f]? = some fl) (ha : fl.ans = some (some p)) :
+    Inv (setDone s f) ∧ Rel (setDone s f) o :=
+  setDone_refines f fl hI hR hf (by rw [ha]; simp) (by rw [ha]; intro h; cases h)
+
+theorem complete_fail_refines {s : State κ} {o : OState κ} (f : Nat) (fl : Flight κ) (hI : Inv s) (hR : Rel s o)
+    (hf : s.flights[f]? = some fl) (ha : fl.ans = some none) :
+    ∃ o', Obs.run o (removeKey s fl.key).2 = some o' ∧ Inv (setDone (removeKey s fl.key).1 f) ∧
+      Rel (setDone (removeKey s fl.key).1 f) o' := by
+  obtain ⟨o', h1, h2, h3⟩ := removeKey_refines fl.key hI hR
+  obtain ⟨fl1, g1, g2, g3⟩ := removeKey_marks f fl hI hf
+  obtain ⟨q1, q2⟩ := setDone_refines f fl1 h2 h3 g1 (by rw [g2, ha]; simp) (fun _ => g3)
+  exact ⟨o', h1, q1, q2⟩
+
 end C14Conn
